@@ -128,7 +128,9 @@ func (g *gen) call(instr ssa.Instruction, c *ssa.CallCommon, pos token.Pos) Val 
 			g.declareFun(name, sorts, rs)
 			g.assumed["calls through function values in "+g.key+" are modelled as pure (dyncalls_pure)"] = true
 			g.useAbstract("dyn")
-			return Val{T: app(name, ts...), Sort: rs, Typ: sig.Results().At(0).Type()}
+			rv := Val{T: app(name, ts...), Sort: rs, Typ: sig.Results().At(0).Type()}
+			g.linkDynToContracts(fv, sig, args, rv)
+			return rv
 		}
 		if g.ctr != nil && g.ctr.DynCallsFrame {
 			g.assumed["calls through function values in "+g.key+" are assumed to leave the modelled state unchanged (dyncalls_frame)"] = true
@@ -1210,4 +1212,65 @@ func (g *gen) astcastModel(sig *types.Signature, args []Val, r Val) {
 		g.assumed["theory go-types: Info.ObjectOf(astcast.NilIdent) is nil"] = true
 		g.assumeGlobal(fmt.Sprintf("(forall ((%s Int)) (! (= (i_tag (spec_infoObjectOf %s %s)) 0) :pattern ((spec_infoObjectOf %s %s))))", q, q, sent, q, sent))
 	}
+}
+
+
+// linkDynToContracts: if the function value called here is a pure function of the repository that is verified against
+// a contract (no captured variables, identical signature), then that contract's postconditions hold for this call:
+//	f == fnid(K)  ==>  (requires_K(args) ==> ensures_K(args, result))
+// The identity f == fnid(K) has to be established by the caller (typically as a precondition that its own call sites discharge).
+func (g *gen) linkDynToContracts(fv Val, sig *types.Signature, args []Val, rv Val) {
+	for _, k := range g.e.sortedFuncKeys() {
+		ctr := g.e.ctrs[k]
+		if ctr == nil || ctr.Trusted || !ctr.Pure || len(ctr.Ensures) == 0 {
+			continue
+		}
+		fn := g.e.funcs[k]
+		if fn == nil || len(fn.FreeVars) != 0 || fn.Signature.Recv() != nil || !types.Identical(fn.Signature, sig) {
+			continue
+		}
+		// only closures of the same top-level function are candidates (keeps the scripts small)
+		if fn.Parent() == nil || g.rootFn() != rootOf(fn) {
+			continue
+		}
+		env := g.specEnvHere()
+		env.calleeMode = true
+		env.fn = nil
+		if rootOf(fn).Pkg != nil {
+			env.pkg = rootOf(fn).Pkg.Pkg
+		}
+		for i := 0; i < sig.Params().Len() && i < len(args); i++ {
+			env.vars[fn.Params[i].Name()] = args[i]
+			env.vars[fmt.Sprintf("arg%d", i)] = args[i]
+		}
+		pre := "true"
+		okAll := true
+		for _, r := range ctr.Requires {
+			t, err := g.evalBool(env, r.E)
+			if err != nil {
+				okAll = false
+				break
+			}
+			pre = and(pre, t)
+		}
+		if !okAll {
+			continue
+		}
+		g.bindResults(env, sig, []Val{rv})
+		for _, en := range ctr.Ensures {
+			t, err := g.evalBool(env, en.E)
+			if err != nil {
+				continue
+			}
+			g.assumed["a call through a function value that is "+k+" satisfies that function's verified contract"] = true
+			g.assume(implies(and(eq(fv.T, funcID(k)), pre), t))
+		}
+	}
+}
+
+func rootOf(fn *ssa.Function) *ssa.Function {
+	for fn.Parent() != nil {
+		fn = fn.Parent()
+	}
+	return fn
 }
